@@ -106,7 +106,9 @@ def histories(tier):
     out += [[a, b] for a in alphabet for b in alphabet]
     out += [[("eval", 6), a, b] for a in alphabet for b in alphabet if a[0] != "eval"]
     if tier == "thorough":
+        out += [[a, b, c] for a in alphabet for b in alphabet for c in alphabet if a[0] == "eval" or b[0] != "eval"]
         out += [[a, b, c, d] for a in alphabet[:2] for b in alphabet[2:] for c in alphabet for d in alphabet[2:]]
+        out += [[b, a, c, d, ("eval", 6)] for a in alphabet[:2] for b in alphabet[2:] for c in alphabet[2:] for d in alphabet[2:]]
     return out
 
 
